@@ -116,7 +116,10 @@ def project_tasks(prop, tier, base):
             for k, lo in enumerate(range(0, n, step)):
                 tasks.append({"tid": "q%d" % k, "kind": "patterns", "seed": core.run_seed(base, 910000), "lo": lo, "hi": min(n, lo + step)})
     for k in range(n_hist):
-        tasks.append({"tid": "h%d" % k, "kind": "gen", "seed": core.run_seed(base, k), "focus": prop})
+        t = {"tid": "h%d" % k, "kind": "gen", "seed": core.run_seed(base, k), "focus": prop}
+        if k % 5 == 4:
+            t["opt"] = 1  # this run happens in an interpreter started with PYTHONOPTIMIZE=1 (asserts compiled away)
+        tasks.append(t)
     tasks = stored_tasks(prop, "project") + tasks
     return tasks
 
@@ -136,7 +139,10 @@ def stored_tasks(prop, engine):
                 doc = json.load(f)
             if doc.get("engine", "project") != engine or doc.get("property") != prop:
                 continue
-            out.append({"tid": "%s:%s" % (pre, name[:-5]), "kind": "scenario", "scenario": doc["scenario"], "stored": sub, "expect_sig": doc.get("expect_sig")})
+            t = {"tid": "%s:%s" % (pre, name[:-5]), "kind": "scenario", "scenario": doc["scenario"], "stored": sub, "expect_sig": doc.get("expect_sig")}
+            if doc["scenario"].get("knobs", {}).get("optimize"):
+                t["opt"] = 1
+            out.append(t)
     return out
 
 
@@ -149,7 +155,15 @@ def run_project_check(prop, tier):
     probes = [dict(t, tid="p" + t["tid"]) for t in tasks if t["kind"] in ("gen", "enum")][-6:] + \
              [dict(t, tid="p" + t["tid"]) for t in tasks if t["kind"] == "enum"][:2]
     budget = _budget(tier, 420.0, 900.0)
-    results, pstats = core.run_pool("project", tasks + probes, task_timeout=240.0, budget_s=budget)
+    normal = [t for t in tasks + probes if not t.get("opt")]
+    optim = [t for t in tasks + probes if t.get("opt")]
+    results, pstats = core.run_pool("project", normal, task_timeout=240.0, budget_s=budget)
+    if optim:
+        # the same code under `python -O`: a deployment configuration in which every `assert` is compiled away
+        r2, p2 = core.run_pool("project", optim, task_timeout=240.0, budget_s=budget, env=core.worker_env(extra={"PYTHONOPTIMIZE": "1"}))
+        results.update(r2)
+        pstats["skipped"] = pstats.get("skipped", 0) + p2.get("skipped", 0)
+        pstats["optimized_runs"] = len(r2)
     for r in results.values():
         if "harness_error" in r:
             raise HarnessError("task %s: %s" % (r["tid"], r["harness_error"]))
@@ -206,7 +220,12 @@ def run_project_check(prop, tier):
         shrink_tasks.append({"tid": "s%d" % len(shrink_tasks), "kind": "shrink", "task": v["_task"], "sig": v["sig"], "fault": v.get("fault"),
                              "_deadline": 200})
     if shrink_tasks:
-        sres, _ = core.run_pool("project", shrink_tasks, task_timeout=260.0)
+        sres = {}
+        for opt in (0, 1):
+            sub = [t for t in shrink_tasks if bool(t["task"].get("opt")) == bool(opt)]
+            if sub:
+                r, _ = core.run_pool("project", sub, task_timeout=260.0, env=core.worker_env(extra={"PYTHONOPTIMIZE": "1"} if opt else None))
+                sres.update(r)
         for st in shrink_tasks:
             r = sres[st["tid"]]
             if "harness_error" in r:
@@ -307,6 +326,7 @@ def project_coverage(prop, tier, stats, nruns, other, samples, pstats, wall, kno
         "ended_by_other_property": other,
         "known_findings_hit": {fid: n for fid, (_k, n) in known_hit.items()},
         "workers": pstats.get("workers"),
+        "runs_under_python_O": pstats.get("optimized_runs", 0),
         "tasks_skipped_by_budget": pstats.get("skipped"),
         "determinism_probe": "tasks re-executed in the same batch produced identical history digests",
         "real_components": ["doctrans (all modules)", "black", "ast", "argparse", "meta.asttools.cmp_ast", "tmpfs files"],
@@ -344,6 +364,10 @@ def replay(path):
     with open(path) as f:
         doc = json.load(f)
     engine = doc.get("engine", "project")
+    if engine == "project" and doc["scenario"].get("knobs", {}).get("optimize") and not sys.flags.optimize:
+        # this history was found in an interpreter running with PYTHONOPTIMIZE=1: replay it the same way
+        env = dict(os.environ, PYTHONOPTIMIZE="1")
+        os.execve(sys.executable, [sys.executable, "-W", "ignore", core.LAUNCHER, "replay", path], env)
     if engine == "project":
         from dtsim import engine_project, shrink
 
@@ -428,8 +452,13 @@ def project_worker(task):
     from dtsim import engine_project, gen_project, shrink
 
     kind = task["kind"]
+    want_opt = bool(task.get("opt") or (task.get("task") or {}).get("opt"))
+    if want_opt != bool(sys.flags.optimize):
+        raise HarnessError("task %s wants optimize=%s but the worker runs with sys.flags.optimize=%s" % (task.get("tid"), want_opt, sys.flags.optimize))
     if kind == "gen":
         sc = gen_project.gen_scenario(task["seed"], task["focus"])
+        if want_opt:
+            sc["knobs"]["optimize"] = 1
         r = engine_project.execute(sc)
         return {"violations": r["violations"], "digest": r["digest"], "stats": r["stats"], "summary": scenario_summary(sc) if task["tid"] in ("h0", "h1", "h2") else None}
     if kind == "enum":
@@ -456,6 +485,8 @@ def project_worker(task):
         t = task["task"]
         if t["kind"] == "gen":
             sc = gen_project.gen_scenario(t["seed"], t["focus"])
+            if want_opt:
+                sc["knobs"]["optimize"] = 1
         elif t["kind"] == "enum":
             sc = enum_base(t["seed"])
             sc["ops"][-1]["fault"] = task["fault"]
